@@ -2,6 +2,7 @@
 import collections
 import hashlib
 import json
+import os
 import re
 
 # crossplane v0.4.71 does not know the NGINX Plus R33 mgmt directives; everything else it reports counts
@@ -78,8 +79,38 @@ def classify(issue, case, all_issues):
     return f"C03:{c}:{first}" if re.fullmatch(r"[a-z_]{2,40}", first) else f"C03:{c}"
 
 
+def _build_with_own_overlay(ctx):
+    """The overlay json of vcheck injects the accessor files of ALL properties. When another property's accessor no longer
+    compiles against the tree under test (e.g. it names an unexported identifier that the change removed), every harness
+    build fails although harness/c03 itself is fine. Retry with only the accessors c03 needs: its own and C02's
+    (harness/c03 imports harness/c02)."""
+    import subprocess
+    import vcheck
+    try:
+        mod, ov = ctx._harness_mod()
+        repl = json.load(open(ov))["Replace"]
+        own = {k: v for k, v in repl.items() if re.search(r"/zz_verif_c0[23][^/]*\.go$", v)}
+        ov2 = ov[:-5] + "-c03.json"
+        open(ov2, "w").write(json.dumps({"Replace": own}, indent=1, sort_keys=True))
+        out_bin = os.path.join(ctx.bindir, "c03")
+        p = subprocess.run(["go", "build", "-tags", "verif", "-modfile", mod, "-overlay", ov2, "-o", out_bin, "./cmd/c03"],
+                           cwd=os.path.join(vcheck.VERIF, "harness"), env=vcheck.GOENV, stdout=subprocess.PIPE, stderr=subprocess.PIPE, text=True)
+        if p.returncode == 0:
+            ctx.log("harness c03 rebuilt with its own overlay accessors only (another property's accessor does not compile)")
+            ctx.notes.append("harness built without the overlay accessors of other properties: " + "; ".join(ctx.build_errors)[:400])
+            ctx.harness_ok = True
+            ctx.build_errors = []
+            return True
+        ctx.log("harness c03 with own overlay only FAILED:\n" + p.stderr[-1500:])
+    except Exception as e:  # fall through to the ordinary "does not build" verdict
+        ctx.log(f"own-overlay rebuild failed: {e}")
+    return False
+
+
 def run(ctx):
     ctx.prepare()
+    if not getattr(ctx, "harness_ok", False):
+        _build_with_own_overlay(ctx)
     ctx.obligations("NGF.Props.C03")
     ctx.obligations("NGF.Props.C03Render")
     if ctx.tier == "thorough":
